@@ -1,5 +1,6 @@
 """Driver plumbing shared by all checks: sharding over subprocesses, merging,
 triage against known_findings.json, evidence files, exit codes (DESIGN 1.7)."""
+import fnmatch
 import hashlib
 import importlib
 import json
@@ -107,7 +108,7 @@ def match_known(known, prop, sig):
         if prop not in k.get('properties', [k.get('property')]):
             continue
         for pat in k.get('signatures', []):
-            if sig == pat or (pat.endswith('*') and sig.startswith(pat[:-1])):
+            if sig == pat or fnmatch.fnmatchcase(sig, pat.replace('[', '[[]')):
                 return k
     return None
 
